@@ -1,8 +1,8 @@
 """C19 — show() draws each object where it is and does not alter it"""
-from corr import disp_family
+from corr import disp_family, disp_out_family
 from oracles import c19 as oracle
 
-GEN = ["Units", "StyleTemp"]
+GEN = ["Units", "StyleTemp", "SensorMesh"]
 LEAN_TARGETS = ["MagpyVerif.Props.C19", "MagpyVerif.Props.C20b"]
 PROPS = ["MagpyVerif.Props.C19", "MagpyVerif.Props.C20b"]  # C20b: style_temp_edit_restores (displaying never modifies the objects, also when it fails)
 
@@ -11,6 +11,8 @@ def run(ctx, model_ok):
     corr = None
     if ctx.driver_ok:
         corr = disp_family.run_stream(ctx, ctx.scale(400, 8000))
+        # outward winding (signed volume), rotated Polyline arrows, Sensor glyph / hull, user model3d traces at several frames (Driver/DispFam2.lean)
+        disp_out_family.run_out(ctx, ctx.scale(400, 6000), corr)
         ctx.cov["correspondence"] = corr
     budget = 4 if len(ctx.broken) else 1
     fails, ost = oracle.sweep(ctx, ctx.scale(25, 800) * budget)
@@ -50,12 +52,28 @@ def run(ctx, model_ok):
                         "directly (signs incl. 0, angles incl. 0 / 90 / 180 / random) and through make_Circle (current +/- / 0 / None, style.arrow.offset, sizemode), "
                         "draw_arrowed_line along +y (the template), the pixel-cube rows of make_Sensor (1-8 pixels, repeated pixels, one pixel at the origin, "
                         "scaled / absolute, pixel size 0)")
+    ctx.cov["rule"] += ("; svol rows: six times the signed volume of the REAL vertex / index arrays of make_Prism (N 3-60), make_CylinderSegment (vert 0-200, r1 = 0, ranges up to 359.5 deg), "
+                        "make_Ellipsoid (N 4-24) and the cone of make_Pyramid about its base centre against DisplayTrig.meshVol6 of the model (relative 1e-9 of the box volume), both positive; "
+                        "arrowr / arrowsv rows: draw_arrowed_line with random directions incl. exactly parallel / exactly anti-parallel / nearly (anti-)parallel to y, a zero vector, all pivots, "
+                        "with and without the line (NaN rows as symbols), and draw_arrow_from_vertices directly and through make_Polyline (repeated vertices, segments along -y, fewer than two "
+                        "vertices: ValueError) against DisplayTrig.arrowedLine / arrowFromVertices with Rodrigues' rotation, relative 1e-12 of the drawn size (observed <= 1e-15); sensor rows: ALL "
+                        "vertex rows of make_Sensor (glyph 98, pixel cubes, hull box) right- / left-handed, no / one / several pixels, coplanar / collinear pixels, autosize, sizemodes, against "
+                        "DisplayTrig.sensorTrace (template regenerated from sensor_mesh.py), relative 1e-12; extraf rows: a matplotlib model3d trace with static kwargs / args on an object with 1-4 "
+                        "poses through get_generic_traces3D(extra_backend='matplotlib') and through process_extra_trace in a loop with one Trace3d object: every frame exact on the 1/64 grid "
+                        "against Display.extraFrames, the caller's and the stored kwargs dict / args tuple / coordsargs compared before / after")
     ctx.cov["not_shown"] = ["current arrows: circle_arrow_on_circle / circle_arrow_direction are about draw_arrow_on_circle in the loop's own frame (the z-rotation written with cos / sin; "
-                            "scipy's from_euler agrees to 1e-12 in the arrowc rows); polyline_arrow_on_segment is about the arrow TEMPLATE of draw_arrowed_line in the segment's own frame - "
-                            "the rotation onto vec (scipy from_rotvec, incl. the anti-parallel branch) and draw_arrow_from_vertices' loop over the segments / sizes are not modelled; "
-                            "make_Sensor: sensor_pixel_cubes / sensor_pixel_size_rule cover the pixel cubes and their size (np.unique's sorting is done by the harness, dim_ext is an input); the axes glyph "
-                            "(get_sensor_mesh template, cube_mask collapse, dim_ext scaling, handedness) and the pixel hull box are not modelled (display oracle: glyph starts at the sensor "
-                            "position, axes directions, left-handed x flip); that positive current = counter-clockwise is the Circle kernel's convention, not derived here; "
+                            "scipy's from_euler agrees to 1e-12 in the arrowc rows); Polyline arrows: draw_arrowed_line is modelled WITH the rotation (DisplayTrig.arrowedLine, scipy's "
+                            "from_rotvec(r).apply as a parameter): polyline_arrow_placed (tip on the segment at arrow_pos, barbs mirror images in the segment, for every vec != 0) ASSUMES of the "
+                            "rotation that it is linear on the template's plane, takes y to vec/|vec| and x to a unit vector perpendicular to vec (TurnsOnto) - proved for Rodrigues' formula "
+                            "(what the driver runs) only in the exactly anti-parallel branch (polyline_arrow_antiparallel) and when nothing is rotated; the general branch (rotvec = -arccos(dot) cross / n) "
+                            "is tied by the arrowr rows only (1e-12), as is scipy = Rodrigues; pivots tip / tail and include_line=False (NaN rows) are in the model and the rows, not in the theorem; "
+                            "draw_arrow_from_vertices: arrows_from_vertices_loop (per-segment recursion, size rule, ValueError below two vertices); a ZERO-LENGTH segment (repeated vertex) gives an "
+                            "all-NaN block and a RuntimeWarning in the real code (model: the same NaNs) - an invisible gap, reported as an observation; "
+                            "make_Sensor: sensor_pixel_cubes / sensor_pixel_size_rule (pixel cubes), sensor_glyph_axes / sensor_glyph_tip_ranges / sensor_glyph_placed (glyph origin = sensor position, "
+                            "arrow tips along +-local axes with length dim_ext, left-handed flips exactly the x arrow) about DisplayTrig.sensorGlyph over the REGENERATED template Gen.SensorMesh; "
+                            "the left-handed turn is written exactly as (x, y, z) -> (-z, y, x) (scipy's from_euler('y', -90) is off by ~2e-16: sensor rows, 1e-12); np.unique's sorting is done by the harness; "
+                            "dim_ext / hull box (sensorDimExt, hullBox: zero extents replaced by pixel_dim / 2) are modelled and tied by the sensor rows but have no theorem beyond an example; "
+                            "facecolor / show flags of the glyph (which faces are kept) are not modelled; that positive current = counter-clockwise is the Circle kernel's convention, not derived here; "
                             "subdivide_mesh_by_facecolor, plotly/matplotlib/pyvista glue: display oracle only (plotly backend; matplotlib only in the no-alteration sweep, pyvista not exercised). "
                             "group_traces / merge_traces: modelled on linearised traces (type, str(value) of the present keys, facecolor-is-None) - group_traces_partition, "
                             "group_traces_merges_within_group, group_key_injective, traces_of_different_subplots_never_merge (tuple key since repo fix 4b91a64; concat_key_collision_witness keeps the "
@@ -67,9 +85,11 @@ def run(ctx, model_ok):
                             "merge_mesh3d / merge_scatter3d, make_path + rescale_traces, unit_prefix / get_unit_factor as used by units_length='auto', get_scene_ranges for one subplot",
                             "winding: every closed-surface generator is consistently wound for EVERY size - cylinder_segment_consistently_wound (N >= 2, caps drawn; since repo fix 64dd71f; "
                             "old_start_cap_was_inverted keeps the pre-fix pattern as a literal witness: four directed edges twice for every N), prism_consistently_wound (N >= 3), "
-                            "ellipsoid_consistently_wound (N >= 4), pyramid / arrow (open base ring; no directed edge twice), cuboid_tetra_consistently_wound; NOT shown: that the winding is OUTWARD "
-                            "for Prism / Ellipsoid / CylinderSegment (only Cuboid and Tetrahedron have the normal-direction theorems; the oracle compares the signed volume for Tetrahedron / TriangularMesh), "
-                            "and the exact-360 ring (no caps: index-open along the seam)",
+                            "ellipsoid_consistently_wound (N >= 4), pyramid / arrow (open base ring; no directed edge twice), cuboid_tetra_consistently_wound; OUTWARD: prism_wound_outwards (N >= 3), cylinder_segment_wound_outwards (every N >= 2, r1 < r2, 0 < phi2 - phi1 < 180 (N - 1); _of_args: every vert, phi2 - phi1 <= 360), "
+                            "ellipsoid_wound_outwards (N >= 4), pyramid_wound_outwards: ONE explicit triangle of the index arrays has normal . (centroid - interior point) > 0; that consistent winding of a "
+                            "CONNECTED closed surface carries this to every triangle is a graph-traversal argument that is NOT formalised (nor is connectedness); the svol rows compare the signed volume of "
+                            "the real arrays with the model's, positive in every row (no generator is wound inwards); reversed angle ranges (phi2 < phi1, rejected by the CylinderSegment validator) "
+                            "would be wound inwards and are excluded by hypothesis; and the exact-360 ring (no caps: index-open along the seam)",
                             "merge_mesh3d model: x/y/z/i/j/k mandatory (the real function skips i/j/k missing from the FIRST trace), intensity / facecolor as optional arrays, other "
                             "entries as opaque tags; a later trace whose facecolor / intensity is None while the first has an array (numpy would hstack the None) is not in the model; "
                             "merge_scatter3d: the theorem needs the two string facts 'mode non-empty' and '\"line\" in mode' as hypotheses (string literals do not reduce in the "
@@ -99,7 +119,9 @@ def run(ctx, model_ok):
                             "'spans the full extent': Cylinder graphic x = -d/2 only for even N and y = +-d/2 only when 4 | N (default 50: not); Sphere graphic: only the z-extent (poles); "
                             "CylinderSegment: the 8 corners",
                             "'displaying never modifies objects, styles or defaults' (style_temp_edit), axis title unit = factor applied by rescale_traces for an EXPLICIT units_length, "
-                            "collections / nesting: no model and no theorem, display oracle only; unit_factor_table / unit_table_powers are decides over the 18 recorded outputs of get_unit_factor (every power of _UNIT_PREFIX incl. 6..24 = M..Y, and d, c)"]
+                            "collections / nesting: no model and no theorem, display oracle only; user model3d traces of a non-generic backend: extra_trace_frames_independent (frame k = process_extra_trace of the "
+                            "ORIGINAL user trace at pose k, user dict unchanged) is about Display.extraFrames, where the user's dict is threaded as state; extra_trace_without_copy_accumulates keeps the variant without the "
+                            "dict copy as a literal witness; callables as kwargs / args, the generic-backend branch (linearize_dict) and the backends' constructors are not modelled (extraf rows: matplotlib traces only); unit_factor_table / unit_table_powers are decides over the 18 recorded outputs of get_unit_factor (every power of _UNIT_PREFIX incl. 6..24 = M..Y, and d, c)"]
 
 
 def replay(ctx, payload):
